@@ -291,6 +291,9 @@ void OPNMIDIplay::realTime_ResetState()
         noteUpdateAll(uint16_t(ch), Upd_All);
         noteUpdateAll(uint16_t(ch), Upd_Off);
     }
+    // The pedals have been reset: end the notes they were holding
+    if(!m_chipChannels.empty())
+        killSustainingNotes(-1, -1, OpnChannel::LocationData::Sustain_ANY);
     synth.m_masterVolume = MasterVolumeDefault;
 }
 
